@@ -159,7 +159,19 @@ impl Check for C20 {
         };
         let big = tier == Tier::Thorough && r.chance(1, 3);
         let d = if r.chance(1, 2) { graphref::gen_dense(r, big) } else { graphref::gen_layered(r, big) };
-        let circuit = c16::gen_circuit(r, big);
+        let mut circuit = c16::gen_circuit(r, big);
+        if r.chance(1, 3) {
+            // a wire that is read but never written (neither an input nor an operation output): what it
+            // holds is not specified by C16, but it must not depend on the backend
+            circuit.w.push(0);
+            let v = circuit.w.len() - 1;
+            if !circuit.e.is_empty() && r.chance(2, 3) {
+                let i = r.below(circuit.e.len());
+                circuit.e[i].s.push(v);
+            } else {
+                circuit.t.push(v);
+            }
+        }
         let input = (0..circuit.s.len()).map(|_| r.next()).collect();
         let arrow = <c18::C18 as Check>::generate(r, tier);
         Case { f, g, spec, optic, d, circuit, input, arrow, extra_schedules: r.range(0, 2) }
@@ -172,9 +184,19 @@ impl Check for C20 {
         fp.add(crate::rng::hash_str(&format!("{:?}{:?}{:?}{:?}", c.spec, c.optic.spec, c.arrow.w, c.arrow.x)));
         ex.workload_fp = fp.0;
         ex.nontrivial = c.f.n() + c.d.n() > 0;
-        if !c16::precondition(&c.circuit) || c.input.len() != c.circuit.s.len() {
+        // every node written at most once (no write races between operations of one batch) and no
+        // dependency cycle; nodes that are read but never written are allowed here
+        let single_writer = {
+            let mut writers = vec![0usize; c.circuit.w.len()];
+            for v in c.circuit.s.iter().chain(c.circuit.e.iter().flat_map(|e| e.t.iter())) {
+                writers[*v] += 1;
+            }
+            writers.iter().all(|k| *k <= 1)
+        };
+        if !single_writer || graphref::has_op_cycle(&c.circuit) || c.input.len() != c.circuit.s.len() {
             return Ok(()); // shrinking left the evaluation precondition
         }
+        ex.probe_if(!c16::precondition(&c.circuit), "circuit_reads_a_never_written_wire");
         let budget = 4 * (launch_budget(&c.f) + launch_budget(&c.g) + launch_budget(&c.d) + launch_budget(&c.circuit) + launch_budget(&c.arrow.h) + launch_budget(&c.optic.f)) + 400_000;
         let run_err = |cfg: &str, e: String| -> Violation { Violation { class: "C20:undefined-or-ill-formed".into(), detail: format!("[{}] {}", cfg, e) } };
 
@@ -261,7 +283,7 @@ impl Check for C20 {
         ]
     }
     fn required_probes() -> Vec<&'static str> {
-        vec!["perturbed_configurations", "compose_raw_data_differs_from_vec", "functor_raw_data_differs_from_vec", "layer_group_order_differs_from_vec", "layering_input_with_cycle"]
+        vec!["perturbed_configurations", "circuit_reads_a_never_written_wire", "compose_raw_data_differs_from_vec", "functor_raw_data_differs_from_vec", "layer_group_order_differs_from_vec", "layering_input_with_cycle"]
     }
     fn components() -> serde_json::Value {
         components_s1()
